@@ -235,6 +235,9 @@ func c02synthetic(g *Gen) {
 			// single-element import paths (the standard library's) next to an output package of the same leaf name
 			useTracker, out = true, g.Pick([]string{"ex.test/util/time", "ex.test/util/errors"})
 		}
+		if i%10 == 2 {
+			useTracker = true // the aliases of case 2's last three packages exist only with a tracker
+		}
 		var tr namer.ImportTracker
 		if useTracker {
 			tr = generator.NewImportTrackerForPackage(out)
@@ -289,6 +292,14 @@ func c02synthetic(g *Gen) {
 		case 2:
 			for _, p := range []string{"ex.test/x/util", "ex.test/~bob/util", "ex.test/lib+x/util"} {
 				forced = append(forced, &TNode{Kind: "slice", Kids: []*TNode{{Kind: "named", Pkg: p, Nm: "T"}}})
+			}
+			// a last directory that is a keyword or "init" only AFTER the characters an identifier
+			// cannot hold are dropped: the alias must still be a legal, non-keyword identifier
+			for _, p := range []string{"ex.test/x/go-to", "ex.test/api/type_", "ex.test/x/in_it"} {
+				forced = append(forced, &TNode{Kind: "map", Kids: []*TNode{{Kind: "named", Pkg: p, Nm: "T"}, {Kind: "array", Len: 2, Kids: []*TNode{{Kind: "pointer", Kids: []*TNode{{Kind: "named", Pkg: p, Nm: "T"}}}}}}})
+			}
+			if useTracker {
+				cls = append(cls, "leaf-becomes-keyword-after-stripping")
 			}
 		case 1:
 			for _, p := range []string{"x/b", "ab", "a/b", "a-b"} {
